@@ -57,7 +57,8 @@ class Circle(Shape2D):
 
     @centroid.setter
     def centroid(self, value):
-        self._centroid = np.asarray(value)
+        # Copy, so that the shape does not share memory with the caller's array.
+        self._centroid = np.array(value)
 
     @property
     def radius(self):
